@@ -265,6 +265,10 @@ FAULTS = {
     # rule 10 -- moments
     'moment_two': ('event', 10, lambda x, e, pi, pos: x['moment'].update(
         boot=True, dow='good', time='good'), None),
+    # boot=False is a defined field ("exactly one of boot/day/dom/dow"): with a
+    # second field the moment is malformed
+    'moment_bootfalse_two': ('event', 10, lambda x, e, pi, pos: x['moment'].update(
+        boot=False, dow='good', time='good'), None),
     'moment_none': ('event', 10, lambda x, e, pi, pos: x.update(moment=moment(time='good')), None),
     'moment_notime': ('event', 10, lambda x, e, pi, pos: x.update(moment=moment(dom='good')), None),
     'moment_badtime': ('event', 10, lambda x, e, pi, pos: x.update(
@@ -385,7 +389,9 @@ def small_engine(kinds, nalg=2):
         o = [owner[0], 0] if owner else None
         p['events'] = {'params': [], 'events': [
             event(moment(dow='good', time='good'), o),
+            event(moment(dow='good', time='good'), o),   # rendered alternately as Monday (0) and Wednesday (2)
             event(moment(boot=True), o),
+            event(moment(boot=False), o),                # "not at boot": one defined field, no time needed
             event(moment(dom='good', time='good'), o),
             event(moment(day='good', time='good'), o)]}
     return eng
